@@ -450,13 +450,16 @@ impl<'a> Interpreter<'a> {
                 ByteCode::Call(n_args) => {
                     match stack.pop_noresolve()? {
                         CelStackValue::BoundCall {
-                            callable, value, ..
+                            callable,
+                            value,
+                            name,
                         } => {
                             let mut args = Vec::new();
 
                             for _ in 0..*n_args {
                                 args.push(stack.pop()?.into_value()?)
                             }
+                            self.no_clock_while_folding(&name, args.len())?;
 
                             match callable {
                                 RsCallable::Function(func) => match self.resolve_args(args) {
@@ -477,6 +480,7 @@ impl<'a> Interpreter<'a> {
 
                             match value {
                                 CelValue::Ident(func_name) => {
+                                    self.no_clock_while_folding(&func_name, args.len())?;
                                     if let Some(func) = self.get_func_by_name(&func_name) {
                                         match self.resolve_args(args) {
                                             Ok(arg_values) => stack
@@ -513,12 +517,15 @@ impl<'a> Interpreter<'a> {
                                         stack.push_val(CelValue::from_err(not_callable));
                                     }
                                 }
-                                CelValue::Type(type_name) => match self.resolve_args(args) {
-                                    Ok(arg_values) => {
-                                        stack.push_val(construct_type(&type_name, arg_values))
+                                CelValue::Type(type_name) => {
+                                    self.no_clock_while_folding(&type_name, args.len())?;
+                                    match self.resolve_args(args) {
+                                        Ok(arg_values) => {
+                                            stack.push_val(construct_type(&type_name, arg_values))
+                                        }
+                                        Err(err) => stack.push_val(self.failed_argument(err)?),
                                     }
-                                    Err(err) => stack.push_val(self.failed_argument(err)?),
-                                },
+                                }
                                 other => stack.push_val(
                                     CelValue::from_err(CelError::runtime(&format!(
                                         "{:?} cannot be called",
@@ -625,6 +632,17 @@ impl<'a> Interpreter<'a> {
         } else {
             Ok(CelValue::from_err(err))
         }
+    }
+
+    // The value of `now()` and of the zero-argument `timestamp()` belongs to the
+    // moment the program runs. However the callee was written (by name, as a
+    // method, as a type value taken from a list or returned by `type()`), the
+    // compiler must not fold such a call into a constant.
+    fn no_clock_while_folding(&self, callee: &str, n_args: usize) -> CelResult<()> {
+        if self.is_compile_time() && (callee == "now" || (callee == "timestamp" && n_args == 0)) {
+            return Err(CelError::runtime("the clock is read when the program runs"));
+        }
+        Ok(())
     }
 
     fn resolve_args(&self, args: Vec<CelValue>) -> Result<Vec<CelValue>, CelError> {
